@@ -109,7 +109,9 @@ cPivotGrowth(int_t ncols, SuperMatrix *A, int_t *perm_c,
 		rpg = SUPERLU_MIN( rpg, maxaj / maxuj );
 	}
 	
-	if ( j >= ncols ) break;
+	/* Do not stop at the first supernode that reaches column ncols:
+	   supernodes are not numbered in column order when the factors were
+	   computed by more than one thread. */
     }
 
     SUPERLU_FREE(inv_perm_c);
